@@ -462,6 +462,7 @@ req_sketch<T, C, A> req_sketch<T, C, A>::deserialize(std::istream& is, const Ser
   const bool is_empty = flags_byte & (1 << flags::IS_EMPTY);
   const bool hra = flags_byte & (1 << flags::IS_HIGH_RANK);
   if (is_empty) return req_sketch(k, hra, comparator, allocator);
+  check_num_levels(num_levels);
 
   optional<T> tmp; // space to deserialize min and max
   optional<T> min_item;
@@ -538,6 +539,7 @@ req_sketch<T, C, A> req_sketch<T, C, A>::deserialize(const void* bytes, size_t s
   const bool is_empty = flags_byte & (1 << flags::IS_EMPTY);
   const bool hra = flags_byte & (1 << flags::IS_HIGH_RANK);
   if (is_empty) return req_sketch(k, hra, comparator, allocator);
+  check_num_levels(num_levels);
 
   optional<T> tmp; // space to deserialize min and max
   optional<T> min_item;
@@ -702,6 +704,15 @@ void req_sketch<T, C, A>::check_preamble_ints(uint8_t preamble_ints, uint8_t num
   if (preamble_ints != expected_preamble_ints) {
     throw std::invalid_argument("Possible corruption: preamble ints must be "
         + std::to_string(expected_preamble_ints) + ", got " + std::to_string(preamble_ints));
+  }
+}
+
+template<typename T, typename C, typename A>
+void req_sketch<T, C, A>::check_num_levels(uint8_t num_levels) {
+  // the weight of an item at level h is 2^h, and the total weight is a 64-bit number
+  if (num_levels < 1 || num_levels > 64) {
+    throw std::invalid_argument("Possible corruption: number of levels of a non-empty sketch must be between 1 and 64, got "
+        + std::to_string(num_levels));
   }
 }
 
